@@ -560,19 +560,20 @@ Step ==
   /\ l <= Len(Traces[tid].ev)
   /\ LET T    == Traces[tid]
          e    == T.ev[l]
-         post == [j \in 1..Len(T.mg) |-> ApplyDelta(st[j], e.m[j])]
-     IN /\ acc' = Digest(T, e, post, l, fails)
+     \* (the observed post-state is assigned FIRST and read back as st' everywhere else: a LET definition of
+     \*  Step itself would be recomputed at every reference, see Digest)
+     IN /\ st' = [j \in 1..Len(T.mg) |-> ApplyDelta(st[j], e.m[j])]
+        /\ acc' = Digest(T, e, st', l, fails)
         /\ fails' = fails \o acc'.fails
         /\ unch' = unch + acc'.unch
         /\ nchk' = nchk + acc'.nchk
-        /\ st' = post
         /\ kc' = IF e.op \in {"new", "append"} THEN e.b ELSE kc
-        /\ ok15' = (ok15 /\ (e.op \in {"append", "calculate"} => LookbackOK(T, e, post)))
+        /\ ok15' = (ok15 /\ (e.op \in {"append", "calculate"} => LookbackOK(T, e, st')))
         /\ trimmed' = (trimmed \/ \E j \in 1..Len(T.mg) :
                             \/ e.m[j].drop > 0
                             \/ TrimNow(T, e, j)
                             \/ (e.op = "new" /\ T.mg[j].life >= 0 /\ DefApplies(T, j)
-                                /\ Len(post[j]) < Len(ShownDef(RawSlice(T, 1, e.b),
+                                /\ Len(st'[j]) < Len(ShownDef(RawSlice(T, 1, e.b),
                                                                [MCfg(T.mg[j]) EXCEPT !.life = -1])))
                             \/ (e.op = "new" /\ T.mg[j].life >= 0 /\ ~DefApplies(T, j)))
         /\ notes' = notes \o acc'.notes
